@@ -61,6 +61,14 @@ def opsSatD (t : Tables) (kind op : String) (args : List String) : Option String
     else if mode == "mall" && descSatEx a tk ls then pure "bad:into_plan_mall-refused-although-table-satisfiable"
     else if mode == "nonmall" && descSatExNM a tk ls then pure "bad:into_plan-refused-although-table-satisfiable"
     else pure "ok"
+  -- J complete3 <ctx> <ast> <assets> <nonmall some|none>: the non-malleable half judged against
+  -- EXACTLY the hypotheses of theorem C02.nonmall_complete (computed here, not by the library's
+  -- `validate`): type m and s, no raw pkh, every preimage known, 1 ≤ k ≤ n
+  | "J", "complete3", [_ctx, ast, assets, nonmall] => do
+    let ms ← parseAst ast; let a ← parseAssets assets
+    if leafSane a ms && satEx (availOf a) ms && nonmall == "none" then
+      pure "bad:T3-hypotheses-hold-and-table-satisfiable-but-satisfy-found-nothing"
+    else pure "ok"
   -- C trbest <mode> <internal> <shape|-> <leaves|-> <assets> <tapkey>: which spend the leaf loop picks
   | "C", "trbest", [mode, _ik, shape, leaves, assets, tk] => do
     let ls ← parseLeaves leaves; let a ← parseAssets assets
